@@ -91,24 +91,38 @@ class ImportConverter:
                 )  # type: ignore
         elif isinstance(module, ast.ImportFrom):
             if module.level == 0:
-                new_imports = [
-                    AbsoluteImport(
-                        module_name,
-                        self._adjust_with_root_prefix(
+                new_imports = []
+                for alias in module.names:
+                    sub_module = self._adjust_with_root_prefix(
+                        f"{module.module}.{alias.name}",
+                        absolute_import_prefix,
+                        all_internal_modules,
+                    )
+                    if sub_module in all_internal_modules:
+                        importee = sub_module
+                    else:
+                        importee = self._adjust_with_root_prefix(
                             module.module,  # type: ignore
                             absolute_import_prefix,
                             all_internal_modules,
-                        ),
-                    )
-                ]
+                        )
+                    new_imports.append(AbsoluteImport(module_name, importee))
             else:
                 new_imports = []
                 for alias in module.names:
-                    new_imports.append(
-                        RelativeImport(
-                            module_name, module.module, alias.name, module.level
-                        )
+                    relative_import = RelativeImport(
+                        module_name, module.module, alias.name, module.level
                     )
+                    if module.module is not None:
+                        sub_module_import = RelativeImport(
+                            module_name,
+                            f"{module.module}.{alias.name}",
+                            None,
+                            module.level,
+                        )
+                        if sub_module_import.importee() in all_internal_modules:
+                            relative_import = sub_module_import
+                    new_imports.append(relative_import)
 
         return new_imports
 
